@@ -6,6 +6,16 @@ mod concat;
 mod dec;
 mod gdec;
 mod pool;
+mod stream;
+mod header;
+mod ffi;
+mod adapters;
+mod multi;
+mod ledger;
+mod dict;
+mod recoder;
+mod hasher;
+mod huff;
 
 fn main() {
     let args = util::parse_args();
@@ -14,6 +24,16 @@ fn main() {
         "arith" => arith::run(&args),
         "concat" => concat::run_cmd(&args),
         "pool" => pool::run_cmd(&args),
+        "stream" => stream::run_cmd(&args),
+        "header" => header::run_cmd(&args),
+        "ffi" => ffi::run_cmd(&args),
+        "adapters" => adapters::run_cmd(&args),
+        "multi" => multi::run_cmd(&args),
+        "ledger" => ledger::run_cmd(&args),
+        "dict" => dict::run_cmd(&args),
+        "recoder" => recoder::run_cmd(&args),
+        "hasher" => hasher::run_cmd(&args),
+        "huff" => huff::run_cmd(&args),
         "concat1" => concat::run_one(&args),
         other => {
             eprintln!("unknown subcommand {}", other);
